@@ -120,7 +120,9 @@ def gen_e2e(ctx, rng):
         U = gen.gen_generic_matrix(rng, n, r, -4, 4); V = gen.gen_generic_matrix(rng, r, m, -4, 4)
         B = U @ V + gen.gen_generic_matrix(rng, n, m) * 2.0 ** (-e)
         ctx.count("e2e:nearly_low_rank")
+    scaled = False
     if not graded and rng.random() < 0.2:
+        scaled = True
         e = rng.choice([-70, -60, -52, -40, 40, 60])         # no magnitude is special
         B = B * 2.0 ** e
         ctx.count("e2e:scaled_2^%d" % e)
@@ -143,12 +145,14 @@ def gen_e2e(ctx, rng):
         meta["np_ints"] = rng.choice([64, 32])
     if len(L) >= 1 and rng.random() < 0.3:
         meta["region_container"] = rng.choice(["tuple1", "2d", "list"])
-    if not graded and rng.random() < 0.2:
+    if not graded and not scaled and rng.random() < 0.2:
+        # (not combined with the extreme units above: squared norms must stay inside the narrower type's range – that is a limit of
+        # the storage type, not of the algorithm; seed 2 of the first sweep produced 2^-90-sized float32 entries and a false alarm)
         # the same matrix stored in half / single precision (8-bit intensities: entries ≥ 256 whose squares leave the half-precision
         # range; tiny amplitudes): GQR works on a copy of at least single precision
         dt = rng.choice(["float16", "float16", "float32"])
         e = rng.choice([0, 8, 8, -13] if dt == "float16" else [0, 20, -20])
-        Bs = np.array(kw_B(B)) * 2.0 ** e
+        Bs = np.array(kw_B(B)) * 2.0 ** e          # float16 input is lifted to float32 by GQR: squares of 2^-13-sized entries are fine there
         if np.all(np.isfinite(Bs.astype(dt))) and np.array_equal(Bs.astype(dt).astype(float), Bs):
             B = Bs
             meta["dtype"] = dt
